@@ -20,21 +20,32 @@ Definition A_CELL_KLASS : Z := 0.
 (* ------------------------------------------------------------------ what happens to each slot of a cell *)
 Inductive action := Carried | Emptied | Dropped.
 
+(* the instance __dict__ travels either as the first component of the state or as the slot "__dict__" *)
+Definition gen_plain_dict_carried : bool :=
+  gen_c19_cell_state_has_dict || (memz S_DICT gen_c19_cell_state_slots && negb (memz S_DICT gen_c19_cell_emptied)).
+Definition gen_grid_dict_carried : bool :=
+  gen_c19_gridcell_state_has_dict
+  || (memz S_DICT gen_c19_cell_state_slots && gen_c19_gridcell_keeps S_DICT && negb (memz S_DICT gen_c19_cell_emptied)).
+
 (* Cell.__getstate__ (default reduce: Network / Voronoi cells) *)
 Definition gen_plain_action (k : Z) : action :=
-  if negb (memz k gen_c19_cell_state_slots) then Dropped
+  if k =? S_DICT then (if gen_plain_dict_carried then Carried else Dropped)
+  else if negb (memz k gen_c19_cell_state_slots) then Dropped
   else if memz k gen_c19_cell_emptied then Emptied else Carried.
 
 (* pickle_gridcell on top of it *)
 Definition gen_grid_action (k : Z) : action :=
-  if negb (memz k gen_c19_cell_state_slots) || negb (gen_c19_gridcell_keeps k) then Dropped
+  if k =? S_DICT then (if gen_grid_dict_carried then Carried else Dropped)
+  else if negb (memz k gen_c19_cell_state_slots) || negb (gen_c19_gridcell_keeps k) then Dropped
   else if memz k gen_c19_cell_emptied then Emptied else Carried.
 
 Definition carried (a : action) : bool := match a with Carried => true | _ => false end.
 
-(* the instance __dict__ travels either as the first component of the state or as the slot "__dict__" *)
-Definition gen_plain_dict_carried : bool := gen_c19_cell_state_has_dict || carried (gen_plain_action S_DICT).
-Definition gen_grid_dict_carried : bool := gen_c19_gridcell_state_has_dict || carried (gen_grid_action S_DICT).
+(* of the keys of the instance __dict__ the model tracks `empty` (written by add_agent / remove_agent when there is no such
+   layer): it must be carried; the cached `neighborhood` may be left out *)
+Definition K_EMPTY : Z := 0.
+Lemma cell_dict_keeps_empty : gen_c19_cell_dict_keeps K_EMPTY = true.
+Proof. vm_compute. reflexivity. Qed.
 
 (* what Model/Copy.v:copy_cell does *)
 Definition model_action (grid : bool) (k : Z) : action :=
